@@ -31,6 +31,11 @@ def plan(tier):
 
 def spec_from_seed(run_seed, tier):
     rnd = random.Random(run_seed)
+    if rnd.random() < 0.04:
+        text, sysw = rnd.choice(archetypes.NON_GENERABLE_KNOWN_MASS)
+        return {"kind": "nongenerable", "prop": "C13", "text": text, "tags": ["non_generable", "mass_known"], "system_molweight": sysw,
+                "sched": {"seed": rnd.randrange(1 << 48), "choice_policy": rnd.choice(["faithful", "first", "last", "rare"]), "draw_policy": "natural",
+                          "script": None, "budget": 30000}, "n_generators": 1, "faults": [], "pulls": rnd.choice([1, 3, 10])}
     if rnd.random() < 0.06:
         text = rnd.choice(archetypes.NON_GENERABLE_SYSTEMS)
         return {"kind": "sys", "prop": "C13", "text": text, "tags": ["non_generable"], "system_molweight": None, "ops_seed": rnd.randrange(1 << 30),
@@ -86,7 +91,55 @@ def _enumerate_crash_points(spec, max_points):
     return agg
 
 
+def _exec_nongenerable(spec):
+    """A system whose generable flag is False (here: mass known, one component not generable) must refuse to iterate, whichever
+    component the scheduler picks.  No AST is involved: these strings are outside the reader's grammar on purpose."""
+    from .. import boot
+    from ..seams import World
+    from ..simrng import Scheduler, SimAbort, SimRng
+
+    g = boot.load()
+    sched = Scheduler(**spec["sched"])
+    world = World(sched, embed="stub")
+    viols = []
+    fget = g.System.generator.fget
+    old = fget.__defaults__
+    yielded = 0
+    with world:
+        fget.__defaults__ = (SimRng(sched),)
+        try:
+            system = g.System(spec["text"], spec["system_molweight"]) if spec["system_molweight"] else g.System(spec["text"])
+            if system.generable:
+                return {"harness_error": f"workload system {spec['text']!r} is reported generable", "violations": []}
+            gen = system.generator
+            try:
+                for _ in range(spec.get("pulls", 1)):
+                    next(gen)
+                    yielded += 1
+                viols.append({"property": "C13", "invariant": "non_generable_system_generates",
+                              "msg": f"System({spec['text']!r}).generable is False, yet iterating it yielded {yielded} molecules", "features": ["mass_known"]})
+            except StopIteration:
+                viols.append({"property": "C13", "invariant": "non_generable_system_iterates",
+                              "msg": "a system that is not generable ended iteration silently instead of refusing", "features": ["mass_known"]})
+            except SimAbort:
+                raise
+            except Exception:
+                if yielded:
+                    viols.append({"property": "C13", "invariant": "non_generable_system_generates",
+                                  "msg": f"System({spec['text']!r}).generable is False, yet iterating it yielded {yielded} molecules before raising",
+                                  "features": ["mass_known"]})
+        finally:
+            fget.__defaults__ = old
+    for v in viols:
+        v["input"] = spec["text"]
+    sig = hashlib.sha1(json.dumps([spec["text"], spec["sched"]["choice_policy"], spec.get("pulls")]).encode()).hexdigest()
+    return {"violations": viols, "stats": {"runs": 1, "non_generable_known_mass_runs": 1, "tag:non_generable": 1}, "sig": sig, "nontrivial": False,
+            "sample": {"system": spec["text"], "expect": "refuses"}, "digest": world.digest(), "trace": list(sched.trace)}
+
+
 def execute(spec):
+    if spec.get("kind") == "nongenerable":
+        return _exec_nongenerable(spec)
     if spec.get("enumerate"):
         return _enumerate_crash_points(spec, spec["enumerate"])
     r = sysrun.run_system(spec["text"], spec["ops_seed"], dict(spec["sched"]), n_generators=spec["n_generators"], faults=spec["faults"],
